@@ -110,14 +110,26 @@ pub fn run(ctx: &Ctx, out: &mut CaseOut) {
                     };
                     let db = FaultDb::new(&*l.program, solver_name(&choice));
                     db.budget.set(300_000);
-                    let mut s = choice.into_solver();
-                    let o = solve(&mut *s, &db, &p.goal);
+                    let is_slg = solver_name(&choice) == "slg";
+                    let mut slg_s = chalk_engine::solve::SLGSolver::<I>::new(10, None);
+                    let mut other = choice.into_solver();
+                    let o = if is_slg { solve(&mut slg_s, &db, &p.goal) } else { solve(&mut *other, &db, &p.goal) };
+                    let stale = is_slg && crate::common::slg_stale_table(&mut slg_s);
                     out.evals += 1;
                     if let Outcome::Answer(a) = o {
                         let d = disp(&a);
                         if &d != bd {
                             let is_f12 = solver_name(&choice) == "slg" && ((trivial_unique(&a) && ba.as_ref().map_or(false, |s| s.is_ambig())) || (trivial_unique(ba) && a.as_ref().map_or(false, |s| s.is_ambig())));
-                            let sig = if is_f12 { Some("slg:trivial-answer-green-cut-order") } else { None };
+                            // F11 loses answers depending on the order in which the cycle is entered; the original program may
+                            // have lost it too, so either side being `None` with a stale table observed on this side counts
+                            let f11 = is_slg && stale && (a.is_none() != ba.is_none());
+                            let sig = if is_f12 {
+                                Some("slg:trivial-answer-green-cut-order")
+                            } else if f11 {
+                                Some("slg:stale-delayed-answer-table")
+                            } else {
+                                None
+                            };
                             out.violation(sig, format!("{}: `{}` on the original program but `{}` after reordering items", solver_name(&choice), bd, d), detail(&w.text, g, &choice).set("permuted_program", ptext.as_str()).set("original_answer", bd.as_str()).set("permuted_answer", d.as_str()));
                         } else {
                             out.count(&format!("same-answer:{}:{}", solver_name(&choice), w.fragment));
